@@ -559,6 +559,10 @@ func (w *World) Step() {
 	if w.Prof.CounterWrap {
 		weights[17] = 1
 	}
+	weights = append(weights, 0)
+	if w.Prof.Fancy >= 4 {
+		weights[18] = 1
+	}
 	if w.Prof.DDL {
 		weights[3], weights[4], weights[5], weights[6], weights[7], weights[8], weights[11], weights[12] = 2, 1, 3, 1, 4, 1, 1, 1
 		weights[13], weights[14] = 1, 1
@@ -682,6 +686,48 @@ func (w *World) Step() {
 		}
 		w.Commit()
 		w.C.Probe("view-or-trigger-in-schema")
+	case 18: // objects real databases contain and sqlittle may not know: it must refuse them or read them right
+		name := w.newName("x")
+		w.Begin()
+		switch s.Draw(7, "exotic-object") {
+		case 0: // full-text index: a virtual table plus shadow tables with single-quoted names
+			if w.Exec("CREATE VIRTUAL TABLE " + name + " USING fts5(body, tag)") {
+				for i := 0; i < 1+s.Draw(30, "nfts"); i++ {
+					w.Exec(fmt.Sprintf("INSERT INTO %s(body, tag) VALUES ('the quick brown fox %d jumps', 'tag%d')", name, i, i%3))
+				}
+				w.C.Probe("fts5-shadow-tables")
+			}
+		case 1: // r-tree: shadow tables with a column named rowid
+			if w.Exec("CREATE VIRTUAL TABLE " + name + " USING rtree(id, minx, maxx)") {
+				for i := 0; i < 1+s.Draw(40, "nrtree"); i++ {
+					w.Exec(fmt.Sprintf("INSERT INTO %s VALUES (%d, %d, %d)", name, i+1, i, i+10))
+				}
+				w.C.Probe("rtree-shadow-tables")
+			}
+		case 2:
+			if w.Exec("CREATE TABLE " + name + " (a INTEGER PRIMARY KEY, b TEXT, c ANY) STRICT") {
+				w.Exec("INSERT INTO " + name + " VALUES (1, 'x', 2.5), (2, 'y', x'00ff'), (7, NULL, 'z')")
+			}
+		case 3: // generated columns: the VIRTUAL one is not stored, the STORED one is
+			if w.Exec("CREATE TABLE " + name + " (a INT, b INT GENERATED ALWAYS AS (a + 1) VIRTUAL, c TEXT, d INT AS (a * 2) STORED, e TEXT DEFAULT 'e')") {
+				w.Exec("INSERT INTO " + name + "(a, c) VALUES (1, 'one'), (5, 'five'), (NULL, NULL)")
+			}
+		case 4: // CREATE TABLE AS: SQLite writes the definition itself
+			if w.Exec("CREATE TABLE " + name + " AS SELECT rowid AS r, * FROM " + gen.Quote(t.Name)) {
+				w.C.Probe("create-table-as")
+			}
+		case 5: // comments inside the stored text
+			if w.Exec("CREATE TABLE /* c1 */ " + name + " (a /* inline */ INTEGER PRIMARY KEY, -- trailing comment\n b TEXT /* c2 */ COLLATE NOCASE, c)") {
+				w.Exec("INSERT INTO " + name + " VALUES (1, 'Ab', 2), (2, 'aB', 3)")
+				w.Exec("CREATE INDEX " + name + "i ON " + name + " (b /* c */ , c DESC) -- end")
+			}
+		default:
+			if w.Exec("CREATE TABLE IF NOT EXISTS " + name + " (a, b, PRIMARY KEY (a, b)) WITHOUT ROWID, STRICT") || w.Exec("CREATE TABLE IF NOT EXISTS "+name+" (a INT, b INT, PRIMARY KEY (a, b)) STRICT, WITHOUT ROWID") {
+				w.Exec("INSERT INTO " + name + " VALUES (1, 2), (1, 3), (0, 9)")
+			}
+		}
+		w.Commit()
+		w.C.Probe("exotic-object")
 	case 16: // the file goes through WAL mode and back: commits made meanwhile are invisible to (and refused by) a rollback-journal reader
 		w.W.CloseConn(w.OConn) // nobody else may have the file open when WAL mode is left again
 		w.Exec("PRAGMA journal_mode=WAL")
